@@ -52,6 +52,18 @@ for it in range(N):
         # weights are fractions of notional
         for k in names:
             if abs(float(s.children[k].weight) - float(s.children[k].notional_value) / float(s.notional_value)) > 1e-9: bad("weight-is-notional-fraction", node=k)
+    # recorded carry histories: the row of each date holds that date's accrual, and nothing is recorded where nothing accrued
+    for k in ("cp", "ch"):
+        node = s.children[k]
+        inc, hcs = node.data["coupon"].to_numpy(dtype=float), node.data["holding_cost"].to_numpy(dtype=float)
+        for d in range(n):
+            c = float(coup.loc[idx[d], k]) * pos[k]
+            if abs(inc[d] - c) > 1e-9: bad("coupon-history-row-is-that-date's-accrual", node=k, row=d, got=float(inc[d]), want=c)
+    fresh = FixedIncomeStrategy("f2", [], children=[CouponPayingSecurity("cp")]); fresh.setup(data[["cp"]], coupons=coup[["cp"]]); fresh.update(idx[0]); fresh.update(idx[1])
+    for col in ("coupon", "holding_cost"):
+        v = fresh.children["cp"].data[col].to_numpy(dtype=float)
+        if float(np.abs(v).sum()) != 0.0: bad("no-carry-recorded-for-a-security-that-never-held-a-position", column=col, values=list(map(float, v[:4])))
+    evals += 1
     # Rebalance scaled to the notional set by SetNotional, including a zero notional (go flat)
     nv = pd.Series([1e6, 1e6, 2e6, 0.0, 5e5, 5e5, 5e5, 5e5][:n], index=idx)
     st2 = FixedIncomeStrategy("r", [A.WeighSpecified(cp=-0.4, fi=0.6), A.SetNotional("nv"), A.Rebalance()], children=[CouponPayingSecurity("fi"), CouponPayingSecurity("cp")])
